@@ -10,6 +10,7 @@ import (
 	"fmt"
 	"math"
 	"math/rand"
+	"sync"
 
 	"github.com/Trisia/randomness"
 )
@@ -432,6 +433,56 @@ func statsReplay(job []byte, out *Out) error {
 			}
 		}
 	}
+	// overlapping calls: the same calls a third time from eight goroutines at once (as the parallel workflows and the batch
+	// detector call them); a result that depends on what other goroutines are doing differs bit-wise from the first pass
+	type unit struct {
+		vi, ci int
+	}
+	var units []unit
+	for vi := range j.Vectors {
+		if len(j.Vectors) > 1 && len(j.Vectors[vi].Bits) > 400000 {
+			continue
+		}
+		for ci_ := range j.Vectors[vi].Calls {
+			units = append(units, unit{vi, ci_})
+		}
+	}
+	if len(units) > 1 {
+		var wg sync.WaitGroup
+		var mu sync.Mutex
+		next := 0
+		for g := 0; g < 8; g++ {
+			wg.Add(1)
+			go func() {
+				defer wg.Done()
+				for {
+					mu.Lock()
+					k := next
+					next++
+					mu.Unlock()
+					if k >= len(units) {
+						return
+					}
+					u := units[k]
+					v := &j.Vectors[u.vi]
+					bits, err := materialise(v)
+					if err != nil {
+						continue
+					}
+					again := entries(v.Calls[u.ci], bits)
+					mu.Lock()
+					f := first[key{v.ID, u.ci}]
+					for k := range f {
+						if k < len(again) && (again[k].PB != f[k].PB || again[k].QB != f[k].QB || again[k].Panic != f[k].Panic) {
+							f[k].NonDet = true
+						}
+					}
+					mu.Unlock()
+				}
+			}()
+		}
+		wg.Wait()
+	}
 	for _, res := range order {
 		out.Emit(res)
 	}
@@ -475,6 +526,53 @@ func genBits(mode string, n int, seed int64) []bool {
 			}
 			for k := 0; k < 8; k++ {
 				b[i+k] = v&(0x80>>uint(k)) != 0
+			}
+		}
+	case "gaps", "gapslong": // uniform 7-bit blocks with planted recurrence distances: for each d in the list some block value occurs at
+		// block p and at block p-d and nowhere in between (powers of two and their neighbours, and a few long gaps)
+		for i := range b {
+			b[i] = rng.Intn(2) == 1
+		}
+		nb := n / 7
+		get := func(q int) int {
+			v := 0
+			for k := 0; k < 7; k++ {
+				v <<= 1
+				if b[7*q+k] {
+					v |= 1
+				}
+			}
+			return v
+		}
+		set := func(q, v int) {
+			for k := 0; k < 7; k++ {
+				b[7*q+k] = v&(0x40>>uint(k)) != 0
+			}
+		}
+		ds := []int{}
+		if mode == "gapslong" {
+			// one long gap per input (a value missing from a long window biases the statistic; one window keeps P moderate)
+			ds = append(ds, []int{65536, 100000, 32768, 65535, 65537}[int(seed%5+5)%5])
+		} else {
+			for e := 6; e <= 12; e++ {
+				ds = append(ds, 1<<e-1, 1<<e, 1<<e+1)
+			}
+			ds = append(ds, 1000, 3000, 8192, 16384)
+		}
+		for i, d := range ds {
+			v := i % 120
+			p := nb - 1 - 37*i
+			if p-d < 0 || p < 0 {
+				continue
+			}
+			set(p, v)
+			set(p-d, v)
+			for q := p - d + 1; q < p; q++ {
+				if get(q) == v {
+					// any value that is not one of the planted ones (keeps the block distribution close to uniform, so
+					// that the P-value stays moderate and a single wrong term is visible)
+					set(q, len(ds)+rng.Intn(128-len(ds)))
+				}
 			}
 		}
 	case "runsbias": // sticky source: repeats the previous bit with probability 0.55
@@ -534,6 +632,9 @@ func statsTrace(job []byte, out *Out) error {
 	if err := json.Unmarshal(job, &j); err != nil {
 		return err
 	}
+	type key struct{ id, call int }
+	first := map[key][]entryRes{}
+	var order []map[string]interface{}
 	for _, in := range j.Inputs {
 		bits := genBits(in.Mode, in.N, in.Seed)
 		for ci_, c := range in.Calls {
@@ -549,9 +650,31 @@ func statsTrace(job []byte, out *Out) error {
 				}()
 				ev["stat"] = proxyStat(c, bits)
 			}()
-			ev["entries"] = entries(c, bits)
-			out.Emit(ev)
+			ents := entries(c, bits)
+			first[key{in.ID, ci_}] = ents
+			ev["entries"] = ents
+			order = append(order, ev)
 		}
+	}
+	// call histories (as in stats-replay): the inputs of this process once more in the opposite order, so every length is
+	// also evaluated after a longer and after a shorter one; a result that depends on earlier calls differs bit-wise
+	if len(j.Inputs) > 1 {
+		for ii := len(j.Inputs) - 1; ii >= 0; ii-- {
+			in := j.Inputs[ii]
+			bits := genBits(in.Mode, in.N, in.Seed)
+			for ci_ := len(in.Calls) - 1; ci_ >= 0; ci_-- {
+				again := entries(in.Calls[ci_], bits)
+				f := first[key{in.ID, ci_}]
+				for k := range f {
+					if k < len(again) && (again[k].PB != f[k].PB || again[k].QB != f[k].QB || again[k].Panic != f[k].Panic) {
+						f[k].NonDet = true
+					}
+				}
+			}
+		}
+	}
+	for _, ev := range order {
+		out.Emit(ev)
 	}
 	return nil
 }
